@@ -44,7 +44,7 @@ class SimFS:
         self.files = {}          # path -> bytearray
         self.fired = []          # faults that actually fired in the current step
         self.counts = {"open": 0, "write": 0, "read": 0, "close": 0, "rename": 0}
-        self.totals = {"open": 0, "write": 0, "read": 0, "close": 0, "rename": 0, "bytes_written": 0, "bytes_read": 0}
+        self.totals = {"open": 0, "write": 0, "read": 0, "close": 0, "rename": 0, "bytes_written": 0, "bytes_read": 0, "eintr": 0}
         self.plan = {}
         self.dead = False        # after a crash: every raw write is discarded
         self.touched = set()     # paths written/truncated in the current step
@@ -62,6 +62,7 @@ class SimFS:
         self.dead = False
         self.touched = set()
         self.opened = []
+        self.eintr_seen = 0
 
     def end_step(self):
         # a crash leaves Python-level buffers behind; make sure nothing of them reaches the disk later
@@ -272,8 +273,27 @@ class SimRaw(io.RawIOBase):
     def tell(self):
         return self.pos
 
+    def _eintr(self, what):
+        """A system call interrupted by a signal before it transferred anything (EINTR): legal at any time, retried
+        by CPython's buffered layer, so it must be invisible to the code under test."""
+        fs = self.fs
+        every = fs.plan.get("eintr")
+        if not every:
+            return
+        if getattr(self, "_interrupted", False):
+            self._interrupted = False        # the retry of the interrupted call goes through
+            return
+        fs.eintr_seen = getattr(fs, "eintr_seen", 0) + 1
+        if fs.eintr_seen % int(every) == 0:
+            self._interrupted = True
+            if "eintr" not in fs.fired:
+                fs.fired.append("eintr")
+            fs.totals["eintr"] += 1
+            raise InterruptedError(errno.EINTR, "sim: interrupted system call (" + what + ")", self.path)
+
     def readinto(self, b):
         fs = self.fs
+        self._eintr("read")
         f = fs._fault("read", ("read_eio",))
         if f is not None:
             raise OSError(errno.EIO, "sim: read_eio", self.path)
@@ -295,6 +315,7 @@ class SimRaw(io.RawIOBase):
         if self.dead or fs.dead:
             return len(b)          # crashed process: buffered bytes never reach the disk
         data = bytes(b)
+        self._eintr("write")
         f = fs._fault("write", ("write_enospc", "write_eio", "crash"))
         if f is not None:
             keep = min(int(f.get("keep", 0)), len(data))
